@@ -31,3 +31,7 @@
 (assert (forall ((q SL) (l SL)) (! (=> (and (lastempty q) (allnz (butlast q)) (allnz l) (not ((_ is snil) (butlast q))))
    (= (hasprefix (bjoin l sep0) (bjoin q sep0)) (and (lprefix (butlast q) l) (> (sllen l) (sllen (butlast q))))))
    :pattern ((hasprefix (bjoin l sep0) (bjoin q sep0))))))
+; lengths: a key is at least as long as any of its prefixes; a join is at least as long as its first component
+(assert (forall ((k Str) (p Str)) (! (=> (hasprefix k p) (>= (strlen k) (strlen p))) :pattern ((hasprefix k p)))))
+(assert (forall ((h Str) (t SL)) (! (>= (strlen (bjoin (scons h t) sep0)) (strlen h)) :pattern ((bjoin (scons h t) sep0)))))
+(assert (forall ((p Str)) (! (hasprefix p p) :pattern ((hasprefix p p)))))
